@@ -218,13 +218,32 @@ def rule_d(repo, chk):
     chk.ob('C11.d', len(d) == 1 and norm(d[0].value) == 'self._get_docstring()', f, 'doc comes from _get_docstring()')
     gd = repo.find('jedi.api.classes', 'BaseName._get_docstring')
     chk.ob('C11.d', norm(gd.body[-1]) == 'return self._name.py__doc__()', gd, '_get_docstring is the name\'s py__doc__()')
+    def is_cleaned(call, depth=0):
+        """cleandoc(safe_literal_eval(x)) directly, or through a local helper whose str-returning paths are exactly that"""
+        if not isinstance(call, ast.Call):
+            return False
+        if repo.resolve(call.func) == 'inspect.cleandoc':
+            a = call.args[0]
+            if call_name(a) == 'safe_literal_eval':
+                return True
+            # cleandoc(doc) with doc = safe_literal_eval(...)
+            f_ = repo.enclosing_func(call)
+            if isinstance(a, ast.Name) and f_ is not None:
+                defs = [x for x in stmts_in(f_, ast.Assign) if norm(x.targets[0]) == a.id]
+                return bool(defs) and all(call_name(x.value) == 'safe_literal_eval' for x in defs)
+            return False
+        r = repo.resolve(call.func)
+        d = repo.def_by_dotted(r) if r else None
+        if d is not None and depth < 2 and isinstance(d, FUNC_TYPES):
+            rets = [x for x in stmts_in(d, ast.Return) if not (isinstance(x.value, ast.Constant) and x.value.value == '')]
+            return bool(rets) and all(is_cleaned(x.value, depth + 1) for x in rets)
+        return False
     for fn in ('clean_scope_docstring', 'find_statement_documentation'):
         c = repo.find('jedi.parser_utils', fn)
         rets = [r for r in stmts_in(c, ast.Return) if not (isinstance(r.value, ast.Constant) and r.value.value == '')]
-        ok = bool(rets) and all(isinstance(r.value, ast.Call) and repo.resolve(r.value.func) == 'inspect.cleandoc' and
-                                call_name(r.value.args[0]) == 'safe_literal_eval' for r in rets)
-        chk.ob('C11.d', ok, c, '%s returns inspect.cleandoc(safe_literal_eval(<literal>)) on every path (what inspect.getdoc does)' % fn,
-               str([norm(r.value) for r in rets]))
+        ok = bool(rets) and all(is_cleaned(r.value) for r in rets)
+        chk.ob('C11.d', ok, c, '%s returns inspect.cleandoc(safe_literal_eval(<literal>)) on every path that yields text (what inspect.getdoc does), '
+               'directly or through one helper' % fn, str([norm(r.value) for r in rets]))
     sl = repo.find('jedi.parser_utils', 'safe_literal_eval')
     ok = any(isinstance(r.value, ast.Call) and repo.resolve(r.value.func) == 'ast.literal_eval' for r in stmts_in(sl, ast.Return))
     chk.ob('C11.d', ok, sl, 'the literal is evaluated with ast.literal_eval')
